@@ -17,6 +17,7 @@ func init() {
 			"D3 the authenticate middleware hands control to the inner handler only when authentication is not required, no admin user exists, or Authenticate/User succeeded (the default arm of the credential-method switch is shown dead: parseCredentials only produces the methods the switch handles); " +
 			"D4 AuthorizeQuery returns success only for the first-admin bootstrap, for an admin, or after every privilege of every statement was checked (each failed check leaves the function with an error), and the database checked is the one the statement names, falling back to the request's database only when the statement names none; AuthorizeWrite/AuthorizeDatabase succeed only after UserInfo.AuthorizeDatabase returned true; " +
 			"D5 the credential cache: every store to Client.cacheData is followed under the same lock by updateAuthCache, updateAuthCache keeps an entry only if its bcrypt hash equals the user's current hash, a cache hit in Authenticate is tied to the user's current hash, and the cache stores no user record (only hashes). " +
+			"The entry Authenticate puts into the credential cache records the hash the password was verified against (the .Hash of the single user record handed to bcrypt.CompareHashAndPassword), never a hash re-read at insertion time. " +
 			"NOT decided: correctness of influxql.Statement.RequiredPrivileges (outside the repository), the JWT library, flux authorization inside the reader.",
 		RuleText:    "obligation = (rule, function/site); marked path exploration with outcome and branch facts; registry/case agreement for the credential methods; field-level type rules for the cache entry",
 		Assumptions: commonAssumptions,
@@ -739,6 +740,84 @@ func runC16(c *core.Ctx) {
 		})
 		c.Need(complete && k >= 2, "success returns of Authenticate")
 		c.Check("cache-hit-tied-to-current-hash", a.Name+"/success-returns", a.PosStr(), bad == "", bad)
+		// the entry Authenticate puts into the cache records the hash the password was VERIFIED against: the bhash
+		// of every authUser literal built in Authenticate is <v>.Hash for the same variable <v> whose .Hash was
+		// handed to bcrypt.CompareHashAndPassword, and <v> is assigned exactly once. A hash re-read from the
+		// metadata at insertion time binds a password that was checked against the old hash to the new one.
+		{
+			hashVarOf := func(x ast.Expr) types.Object {
+				// strips conversions: []byte(v.Hash), string(...)
+				for {
+					x = ast.Unparen(x)
+					if ce, ok := x.(*ast.CallExpr); ok && len(ce.Args) == 1 {
+						if tv, ok := ainfo.Types[ce.Fun]; ok && tv.IsType() {
+							x = ce.Args[0]
+							continue
+						}
+					}
+					break
+				}
+				if id, ok := x.(*ast.Ident); ok {
+					return ainfo.ObjectOf(id) // a local that holds the hash (assigned once, see below)
+				}
+				se, ok := x.(*ast.SelectorExpr)
+				if !ok || se.Sel.Name != "Hash" {
+					return nil
+				}
+				id, ok := ast.Unparen(se.X).(*ast.Ident)
+				if !ok {
+					return nil
+				}
+				return ainfo.ObjectOf(id)
+			}
+			var verified types.Object
+			nCmp := 0
+			for _, e := range a.Graph().Events {
+				if e.Kind == core.EvCall && bcryptCmp(e.Call) && len(e.Call.Args) == 2 {
+					nCmp++
+					verified = hashVarOf(e.Call.Args[0])
+				}
+			}
+			c.Need(nCmp == 1 && verified != nil, "the single bcrypt comparison of Authenticate against <user record>.Hash")
+			nAssign := 0
+			ast.Inspect(a.Body, func(nd ast.Node) bool {
+				if as, ok := nd.(*ast.AssignStmt); ok {
+					for _, l := range as.Lhs {
+						if id, ok := ast.Unparen(l).(*ast.Ident); ok && ainfo.ObjectOf(id) == verified {
+							nAssign++
+						}
+					}
+				}
+				return true
+			})
+			nLit := 0
+			ast.Inspect(a.Body, func(nd ast.Node) bool {
+				cl, ok := nd.(*ast.CompositeLit)
+				if !ok {
+					return true
+				}
+				t := ainfo.TypeOf(cl)
+				if t == nil || !strings.HasSuffix(t.String(), "meta.authUser") {
+					return true
+				}
+				nLit++
+				var bh ast.Expr
+				for i, el := range cl.Elts {
+					if kv, ok := el.(*ast.KeyValueExpr); ok {
+						if id, ok := kv.Key.(*ast.Ident); ok && id.Name == "bhash" {
+							bh = kv.Value
+						}
+					} else if st, ok := t.Underlying().(*types.Struct); ok && i < st.NumFields() && st.Field(i).Name() == "bhash" {
+						bh = el
+					}
+				}
+				good := bh != nil && hashVarOf(bh) == verified && nAssign == 1
+				c.Check("cache-entry-records-the-verified-hash", fmt.Sprintf("%s/authUser-literal#%d", a.Name, nLit), c.P.Pos(cl.Pos()), good,
+					"the credential-cache entry built here does not record the hash the password was just verified against (the .Hash of the user record handed to bcrypt.CompareHashAndPassword, looked up once): a password checked against the old hash while a password change is being installed is then cached under the new hash and stays valid")
+				return true
+			})
+			c.Floor("authUser entries built in Authenticate", nLit, 1)
+		}
 		// the user returned is always the record looked up in the current metadata, never something stored in the cache
 		i := 0
 		for _, e := range a.Graph().Events {
